@@ -535,8 +535,64 @@ def u11_u12_imports(prog, ctx):
                                keep=lambda ob: "location" in ob.instance, what="error location record")
 
 
+def u13_option_table(prog, ctx, rule="U13"):
+    """U13: every long option of the tool is an option of its own: the `val` it maps to is the letter of a `case` of the option switch, no
+    two names share a letter, and a name takes an argument exactly when its letter does in the getopt string.  (`--comment` mapped to the
+    letter of `--delimiters` makes the comment set the user names change the delimiters, and leaves the comment set at its default.)"""
+    m = prog.fn("main", util=True)
+    ctx.touch(m)
+    table = None
+    for n0 in m.nodes:
+        if n0 is not None and n0.k == "DeclStmt":
+            for d0 in n0.j.get("decls", []):
+                if d0.get("init", -1) >= 0 and "option" in (d0.get("ct") or "") and m.nodes[d0["init"]].strip().k == "InitListExpr":
+                    table = m.nodes[d0["init"]].strip()
+    gl = m.calls(("getopt_long", "getopt_long_only"))
+    if table is None or len(gl) != 1:
+        ctx.inconclusive(rule, "long options of the tool", m.where, "option table / getopt_long() call not found")
+        return
+    optstring = gl[0].call_args()[2].string_value() or ""
+    cases = set()
+    for x in m.walk():
+        if x.k == "CaseStmt" and x.children:
+            cv = x.children[0].const_value()
+            if isinstance(cv, int) and 32 < cv < 127:
+                cases.add(chr(cv))
+    seen = {}
+    n = 0
+    for row in table.children:
+        r0 = row.strip()
+        if r0.k != "InitListExpr" or len(r0.children) < 4:
+            continue
+        name = r0.children[0].string_value()
+        val = r0.children[3].const_value()
+        has_arg = r0.children[1].const_value()
+        if name is None or not isinstance(val, int) or val == 0:
+            continue
+        n += 1
+        letter = chr(val) if 32 < val < 127 else str(val)
+        inst = "--%s" % name
+        if letter in seen:
+            ctx.fail(rule, "%s is an option of its own" % inst, r0.where,
+                     "--%s and --%s both map to '%s': the second name does what the first one does, and what it names itself is never set" % (seen[letter], name, letter),
+                     key="longopt-shared:%s" % name)
+            continue
+        seen[letter] = name
+        takes = (letter + ":") in optstring
+        if letter not in cases or letter not in optstring:
+            ctx.fail(rule, "%s is an option of its own" % inst, r0.where, "maps to '%s', which the option switch / the getopt string does not know" % letter, key="longopt-unknown:%s" % name)
+        elif bool(has_arg) != takes:
+            ctx.fail(rule, "%s is an option of its own" % inst, r0.where,
+                     "the table says %s, the getopt string says %s for '%s'" % ("argument" if has_arg else "no argument", "argument" if takes else "no argument", letter),
+                     key="longopt-arg:%s" % name)
+        else:
+            ctx.ok(rule, "%s is an option of its own" % inst, r0.where, "'%s'%s, handled by its own case" % (letter, " with argument" if takes else ""))
+    ctx.floor("C19 long options", n, 4)
+
+
 def run(prog, ctx):
     u11_u12_imports(prog, ctx)
+    u13_option_table(prog, ctx)
     u1(prog, ctx)
     u2(prog, ctx)
     u3_u4(prog, ctx)
